@@ -330,6 +330,12 @@ let () =
       "obs=" ^ String.concat "/" (List.map (fun l -> if l = [] then "_" else sl l) (run_threads ps sc))
     | _ -> failwith "thrm")
 
+(* ---------------- C10 ---------------- *)
+let () =
+  reg "ledger" (fun a -> match a with
+    | [codes] -> "lib=" ^ sl (ledger_trace (zlist_of_string codes))
+    | _ -> failwith "ledger")
+
 let () =
   (try
     while true do
